@@ -408,6 +408,14 @@ func (c *nodeComparer) Walk(from, to *value) {
 		}
 
 	case reflect.Struct:
+		if from.Type() == goast.GenDeclType && isImportDecl(from) != isImportDecl(to) {
+			// An import declaration is never a modified form of a type,
+			// var or const declaration: pairing them (say, when two import
+			// declarations were merged into one) would report the
+			// untouched declaration that follows as deleted.
+			c.NumDiff += 2 // not equal or similar
+			return
+		}
 		for i, v := range from.Children {
 			c.Walk(v, to.Children[i])
 		}
@@ -419,4 +427,15 @@ func (c *nodeComparer) Walk(from, to *value) {
 			c.NumDiff++
 		}
 	}
+}
+
+// isImportDecl reports whether the snapshot of an ast.GenDecl is that of an
+// import declaration.
+func isImportDecl(decl *value) bool {
+	for _, v := range decl.Children {
+		if tok, ok := v.Interface().(token.Token); ok {
+			return tok == token.IMPORT
+		}
+	}
+	return false
 }
